@@ -1,5 +1,6 @@
 CONSTANTS
-  Descs = {1, 2, 3, 4}
+  Descs = {1, 2, 3, 4, 5, 6, 8}
+  ExportDescs = {5, 6, 8}
   PVariant = "asis"
 SPECIFICATION TSpec
 CONSTRAINT Track
